@@ -9,13 +9,13 @@ from build import VERIF, WORK
 class Job:
     def __init__(self, name, props, group, harness, config='baseline', defines=(), unwind=8, unwindset=(), timeout=240,
                  mem_gb=6, tier='quick', temp_mode=2, roots=r'^w_', threads=1, desc='', bounds='', finding=None,
-                 function='harness', extra=(), witness=True, solver=None, sweep=True, model_only=False):
+                 function='harness', extra=(), witness=True, solver=None, sweep=True, model_only=False, static_audit=None):
         self.name = name; self.props = props if isinstance(props, (list, tuple)) else [props]
         self.group = group; self.harness = harness; self.config = config; self.defines = list(defines)
         self.unwind = unwind; self.unwindset = list(unwindset); self.timeout = timeout; self.mem_gb = mem_gb
         self.tier = tier; self.temp_mode = temp_mode; self.roots = roots; self.threads = threads
         self.desc = desc; self.bounds = bounds; self.finding = finding; self.function = function
-        self.extra = list(extra); self.witness = witness; self.solver = solver; self.sweep = sweep; self.model_only = model_only
+        self.extra = list(extra); self.witness = witness; self.solver = solver; self.sweep = sweep; self.model_only = model_only; self.static_audit = static_audit
 
     def cfg_defines(self):
         c = build.CONFIGS[self.config]
@@ -75,6 +75,9 @@ def run_job(job, rh, vh, use_cache=True):
         res.update(status='error', detail=str(e)[-4000:], wall_s=time.time() - t0)
         return res
     res['functions_encoded'] = len(g['meta']['functions'])
+    if job.static_audit == 'atomics':
+        res.update(audit_atomics(g)); res['wall_s'] = round(time.time() - t0, 2)
+        return res
     res['externs'] = g['meta']['externs']
     extra = list(job.extra)
     if job.solver == 'cadical': extra += ['--sat-solver', 'cadical']
@@ -168,6 +171,26 @@ def replay_failure(job, g, real, extra, hang_probe=False):
     else:
         out.update(status='inconclusive', detail='counterexample for "%s" did not reproduce natively (rc=%d): %s' % (f0['description'], p.returncode, p.stdout.strip()[-300:]))
     return out
+
+SHARED_GLOBAL_RE = r'@(_ZN9foonathan6memory6detail24global_leak_checker_impl\w*(?:allocated_|no_counter_objects_)E|_ZN12_GLOBAL__N_1\d+\w+_hE|_ZL24temporary_stack_list_obj)\b'
+def audit_atomics(g):
+    """C13 (b): every instruction of the linked IR that touches a process-wide shared counter / handler pointer must be an atomic
+    operation (load atomic / store atomic / atomicrmw / cmpxchg).  A syntactic audit of the real IR, regenerated on every run."""
+    text = open(os.path.join(g['dir'], 'module.ll')).read()
+    props = []; bad = []
+    for ln in text.split('\n'):
+        if not ln.startswith('  '): continue
+        m = re.search(SHARED_GLOBAL_RE, ln)
+        if not m: continue
+        if ' call ' in ln or ln.strip().startswith(('call', 'invoke', 'tail call')): continue      # address passed on, not an access
+        ok = ' atomic ' in ln or 'atomicrmw' in ln or 'cmpxchg' in ln
+        props.append('atomic access to ' + m.group(1)[:90])
+        if not ok: bad.append(ln.strip()[:200])
+    res = dict(cbmc_status='static', prop_list=sorted(set(props)), obligations=len(props), witnesses=0, witnesses_reached=0)
+    if not props: res.update(status='vacuous', detail='no access to a shared global found in the IR')
+    elif bad: res.update(status='violation', discharged=len(props) - len(bad), failed=['non-atomic access to a shared global'], failing='non-atomic access', detail='; '.join(bad[:3]), replay='n/a')
+    else: res.update(status='ok', discharged=len(props))
+    return res
 
 def load_findings():
     p = os.path.join(VERIF, 'known_findings.json')
